@@ -19,33 +19,33 @@ theorem foldl_add_init (l : List (String × α)) (a : α) :
   | nil => simp
   | cons x xs ih => simp only [List.foldl_cons]; rw [ih, ih (0 + x.2)]; ring
 
-theorem sum_alSet (l : List (String × α)) (k : String) (old v : α) (h : alGet l k = some old) :
-    (alSet l k v).foldl (fun a kv => a + kv.2) 0 = l.foldl (fun a kv => a + kv.2) 0 - old + v := by
+theorem sum_sdSet (l : List (String × α)) (k : String) (old v : α) (h : sdGet l k = some old) :
+    (sdSet l k v).foldl (fun a kv => a + kv.2) 0 = l.foldl (fun a kv => a + kv.2) 0 - old + v := by
   induction l with
-  | nil => simp [alGet] at h
+  | nil => simp [sdGet] at h
   | cons x xs ih =>
     obtain ⟨xk, xv⟩ := x
     by_cases hk : xk = k
     · subst hk
-      simp only [alGet, beq_self_eq_true, if_true, Option.some.injEq] at h
+      simp only [sdGet, beq_self_eq_true, if_true, Option.some.injEq] at h
       subst h
-      simp only [alSet, beq_self_eq_true, if_true, List.foldl_cons]
+      simp only [sdSet, beq_self_eq_true, if_true, List.foldl_cons]
       rw [foldl_add_init xs (0 + v), foldl_add_init xs (0 + xv)]; ring
     · have hb : (xk == k) = false := by simpa using hk
-      simp only [alGet, hb, Bool.false_eq_true, if_false] at h
-      simp only [alSet, hb, Bool.false_eq_true, if_false, List.foldl_cons]
+      simp only [sdGet, hb, Bool.false_eq_true, if_false] at h
+      simp only [sdSet, hb, Bool.false_eq_true, if_false, List.foldl_cons]
       rw [foldl_add_init _ (0 + xv), foldl_add_init xs (0 + xv), ih h]; ring
 
 theorem addLoad_currentLoad (g : GcS α) (k : String) (v : α) :
     (g.addLoad k v).1.currentLoad = g.currentLoad + v ∧ (g.addLoad k v).1.curMax = g.curMax ∧
     (g.addLoad k v).1.id = g.id ∧ (g.addLoad k v).1.cost = g.cost := by
   unfold GcS.addLoad GcS.currentLoad
-  cases h : alGet g.loads k with
+  cases h : sdGet g.loads k with
   | none =>
     refine ⟨?_, ?_, ?_, ?_⟩ <;> simp [List.foldl_append]
   | some old =>
     refine ⟨?_, ?_, ?_, ?_⟩ <;> simp only []
-    rw [sum_alSet g.loads k old (old + v) h]; ring
+    rw [sum_sdSet g.loads k old (old + v) h]; ring
 
 end SpiceEv
 
@@ -147,48 +147,48 @@ end SpiceEv
 namespace SpiceEv
 variable {α B : Type} [Field α] [LinearOrder α] [IsStrictOrderedRing α]
 
-theorem alGet_alSet_same {β : Type} (l : List (String × β)) (k : String) (v : β) :
-    alGet (alSet l k v) k = some v := by
+theorem sdGet_alSet_same {β : Type} (l : List (String × β)) (k : String) (v : β) :
+    sdGet (sdSet l k v) k = some v := by
   induction l with
-  | nil => simp [alSet, alGet]
+  | nil => simp [sdSet, sdGet]
   | cons x xs ih =>
     obtain ⟨xk, xv⟩ := x
     by_cases hk : xk = k
-    · subst hk; simp [alSet, alGet]
+    · subst hk; simp [sdSet, sdGet]
     · have hb : (xk == k) = false := by simpa using hk
-      simp [alSet, alGet, hb, ih]
+      simp [sdSet, sdGet, hb, ih]
 
-theorem alGet_alSet_ne {β : Type} (l : List (String × β)) (k k' : String) (v : β) (h : k' ≠ k) :
-    alGet (alSet l k v) k' = alGet l k' := by
+theorem sdGet_alSet_ne {β : Type} (l : List (String × β)) (k k' : String) (v : β) (h : k' ≠ k) :
+    sdGet (sdSet l k v) k' = sdGet l k' := by
   induction l with
   | nil =>
     have : (k == k') = false := by simpa using (Ne.symm h)
-    simp [alSet, alGet, this]
+    simp [sdSet, sdGet, this]
   | cons x xs ih =>
     obtain ⟨xk, xv⟩ := x
     by_cases hk : xk = k
     · subst hk
       have : (xk == k') = false := by simpa using (Ne.symm h)
-      simp [alSet, alGet, this]
+      simp [sdSet, sdGet, this]
     · have hb : (xk == k) = false := by simpa using hk
-      simp only [alSet, hb, Bool.false_eq_true, if_false, alGet, ih]
+      simp only [sdSet, hb, Bool.false_eq_true, if_false, sdGet, ih]
 
-def availOf (avail : List (String × α)) (id : String) : α := (alGet avail id).getD 0
+def availOf (avail : List (String × α)) (id : String) : α := (sdGet avail id).getD 0
 
 /-- loop invariant of the vehicle pass: a connector may exceed its limit only by the battery
 support that has been reserved (`A0 − remaining`) -/
-def LoopInv (A0 : String → α) (w : World α B) (avail : List (String × α)) : Prop :=
+def LoopInv (A0 : String → α) (w : SWorld α B) (avail : List (String × α)) : Prop :=
   ∀ g ∈ w.gcs, g.currentLoad ≤ g.curMax + (A0 g.id - availOf avail g.id) ∧
     0 ≤ availOf avail g.id ∧ availOf avail g.id ≤ A0 g.id
 
-theorem gc?_some (w : World α B) (id : String) (g : GcS α) (h : w.gc? id = some g) :
+theorem gc?_some (w : SWorld α B) (id : String) (g : GcS α) (h : w.gc? id = some g) :
     g ∈ w.gcs ∧ g.id = id := by
-  unfold World.gc? at h
+  unfold SWorld.gc? at h
   exact ⟨List.mem_of_find?_eq_some h, by simpa using List.find?_some h⟩
 
-theorem mem_setGc (w : World α B) (g' g : GcS α) (h : g ∈ (w.setGc g').gcs) :
+theorem mem_setGc (w : SWorld α B) (g' g : GcS α) (h : g ∈ (w.setGc g').gcs) :
     g = g' ∨ (g ∈ w.gcs ∧ g.id ≠ g'.id) := by
-  unfold World.setGc at h
+  unfold SWorld.setGc at h
   simp only [List.mem_map] at h
   obtain ⟨x, hx, rfl⟩ := h
   by_cases hid : x.id = g'.id
@@ -197,14 +197,14 @@ theorem mem_setGc (w : World α B) (g' g : GcS α) (h : g ∈ (w.setGc g').gcs) 
     have : (x.id == g'.id) = false := by simpa using hid
     simp [this, hx, hid]
 
-@[simp] theorem setVehicle_gcs (w : World α B) (v : VehicleS α B) : (w.setVehicle v).gcs = w.gcs := rfl
-@[simp] theorem setStation_gcs (w : World α B) (s : StationS α) : (w.setStation s).gcs = w.gcs := rfl
-@[simp] theorem setBattery_gcs (w : World α B) (b : StatBatS α B) : (w.setBattery b).gcs = w.gcs := rfl
+@[simp] theorem setVehicle_gcs (w : SWorld α B) (v : VehicleS α B) : (w.setVehicle v).gcs = w.gcs := rfl
+@[simp] theorem setStation_gcs (w : SWorld α B) (s : StationS α) : (w.setStation s).gcs = w.gcs := rfl
+@[simp] theorem setBattery_gcs (w : SWorld α B) (b : StatBatS α B) : (w.setBattery b).gcs = w.gcs := rfl
 
 /-- **one vehicle of the allocation pass preserves the invariant** -/
 theorem allocVehicle_inv (rule : Rule) (ops : BatOps α B) (law : BatLaw ops) (env : StratEnv α)
-    (A0 : String → α) (w : World α B) (cmds avail : List (String × α)) (vid : String)
-    (w' : World α B) (cmds' avail' : List (String × α))
+    (A0 : String → α) (w : SWorld α B) (cmds avail : List (String × α)) (vid : String)
+    (w' : SWorld α B) (cmds' avail' : List (String × α))
     (hinv : LoopInv A0 w avail)
     (h : allocVehicle rule ops env (w, cmds, avail) vid = .ok (w', cmds', avail')) :
     LoopInv A0 w' avail' := by
@@ -231,7 +231,7 @@ theorem allocVehicle_inv (rule : Rule) (ops : BatOps α B) (law : BatLaw ops) (e
           | ok cheap =>
             simp only [hch, bind, Except.bind] at h
             cases hpl : planPower rule ops env cheap (gc.curMax - gc.currentLoad)
-                ((alGet avail cs.parent).getD 0) cs v with
+                ((sdGet avail cs.parent).getD 0) cs v with
             | error e => simp [hpl] at h
             | ok pu =>
               obtain ⟨power, used⟩ := pu
@@ -247,7 +247,7 @@ theorem allocVehicle_inv (rule : Rule) (ops : BatOps α B) (law : BatLaw ops) (e
                 obtain ⟨hL, hM, hI, _⟩ := addLoad_currentLoad gc csId avg
                 have hgI := hinv gc hgmem
                 rw [hgid] at hgI
-                have hav : availOf avail cs.parent = (alGet avail cs.parent).getD 0 := rfl
+                have hav : availOf avail cs.parent = (sdGet avail cs.parent).getD 0 := rfl
                 intro g hg
                 simp only [setStation_gcs] at hg
                 rcases mem_setGc _ _ g hg with rfl | ⟨hgm, hne⟩
@@ -272,9 +272,9 @@ theorem allocVehicle_inv (rule : Rule) (ops : BatOps α B) (law : BatLaw ops) (e
                   | true =>
                     simp only [if_true]
                     rw [← hav]
-                    have hnew : availOf (alSet avail cs.parent (pymax (a - avg) 0)) cs.parent
+                    have hnew : availOf (sdSet avail cs.parent (pymax (a - avg) 0)) cs.parent
                         = max (a - avg) 0 := by
-                      unfold availOf; rw [alGet_alSet_same]; simp [pymax_eq]
+                      unfold availOf; rw [sdGet_alSet_same]; simp [pymax_eq]
                     rw [hnew]
                     have hb : power ≤ max 0 (left + a) := by
                       cases rule with
@@ -299,12 +299,12 @@ theorem allocVehicle_inv (rule : Rule) (ops : BatOps α B) (law : BatLaw ops) (e
                   simp only [setVehicle_gcs] at hgm
                   have hne' : g.id ≠ cs.parent := by
                     rw [hI] at hne; rw [← hgid]; exact hne
-                  have hsame : availOf (if used = true then alSet avail cs.parent
-                      (pymax ((alGet avail cs.parent).getD 0 - avg) 0) else avail) g.id
+                  have hsame : availOf (if used = true then sdSet avail cs.parent
+                      (pymax ((sdGet avail cs.parent).getD 0 - avg) 0) else avail) g.id
                       = availOf avail g.id := by
                     cases used with
                     | false => simp
-                    | true => simp only [if_true]; unfold availOf; rw [alGet_alSet_ne _ _ _ _ hne']
+                    | true => simp only [if_true]; unfold availOf; rw [sdGet_alSet_ne _ _ _ _ hne']
                   rw [hsame]
                   exact hinv g hgm
 
@@ -315,7 +315,7 @@ variable {α B : Type} [Field α] [LinearOrder α] [IsStrictOrderedRing α]
 
 /-- the whole vehicle pass preserves the invariant -/
 theorem allocFold_inv (rule : Rule) (ops : BatOps α B) (law : BatLaw ops) (env : StratEnv α)
-    (A0 : String → α) (ids : List String) (st st' : World α B × List (String × α) × List (String × α))
+    (A0 : String → α) (ids : List String) (st st' : SWorld α B × List (String × α) × List (String × α))
     (hinv : LoopInv A0 st.1 st.2.2)
     (h : ids.foldlM (allocVehicle rule ops env) st = .ok st') : LoopInv A0 st'.1 st'.2.2 := by
   induction ids generalizing st with
@@ -333,13 +333,13 @@ theorem allocFold_inv (rule : Rule) (ops : BatOps α B) (law : BatLaw ops) (env 
       exact ih (w1, c1, a1) (allocVehicle_inv rule ops law env A0 w c a id w1 c1 a1 hinv hs) h
 
 /-- invariant of the surplus pass: every connector stays below `curMax + S` -/
-def Below (S : String → α) (w : World α B) : Prop :=
+def Below (S : String → α) (w : SWorld α B) : Prop :=
   ∀ g ∈ w.gcs, g.currentLoad ≤ g.curMax + S g.id
 
 theorem surplusVehicle_below (ops : BatOps α B) (law : BatLaw ops) (env : StratEnv α)
     (heps : 0 ≤ env.eps) (S : String → α) (hS : ∀ k, 0 ≤ S k)
-    (cheap : List (String × Bool)) (w : World α B) (cmds : List (String × α)) (v : VehicleS α B)
-    (w' : World α B) (cmds' : List (String × α))
+    (cheap : List (String × Bool)) (w : SWorld α B) (cmds : List (String × α)) (v : VehicleS α B)
+    (w' : SWorld α B) (cmds' : List (String × α))
     (hcm : ∀ g ∈ w.gcs, 0 ≤ g.curMax) (hinv : Below S w)
     (h : surplusVehicle ops env cheap w cmds v = .ok (w', cmds')) :
     Below S w' ∧ (∀ g ∈ w'.gcs, 0 ≤ g.curMax) := by
@@ -418,7 +418,7 @@ namespace SpiceEv
 variable {α B : Type} [Field α] [LinearOrder α] [IsStrictOrderedRing α]
 
 theorem distributeSurplus_below (ops : BatOps α B) (law : BatLaw ops) (env : StratEnv α)
-    (heps : 0 ≤ env.eps) (S : String → α) (hS : ∀ k, 0 ≤ S k) (w w' : World α B)
+    (heps : 0 ≤ env.eps) (S : String → α) (hS : ∀ k, 0 ≤ S k) (w w' : SWorld α B)
     (cmds' : List (String × α)) (hcm : ∀ g ∈ w.gcs, 0 ≤ g.curMax) (hinv : Below S w)
     (h : distributeSurplus ops env w = .ok (w', cmds')) :
     Below S w' ∧ (∀ g ∈ w'.gcs, 0 ≤ g.curMax) := by
@@ -428,9 +428,9 @@ theorem distributeSurplus_below (ops : BatOps α B) (law : BatLaw ops) (env : St
   · cases h
   · rename_i cheap _
     -- generalise the fold
-    have key : ∀ (vs : List (VehicleS α B)) (st st' : World α B × List (String × α)),
+    have key : ∀ (vs : List (VehicleS α B)) (st st' : SWorld α B × List (String × α)),
         Below S st.1 → (∀ g ∈ st.1.gcs, 0 ≤ g.curMax) →
-        vs.foldlM (fun (st : World α B × List (String × α)) v0 =>
+        vs.foldlM (fun (st : SWorld α B × List (String × α)) v0 =>
           match st.1.vehicle? v0.id with
           | none => Except.ok st
           | some v => surplusVehicle ops env cheap st.1 st.2 v) st = .ok st' →
@@ -457,21 +457,21 @@ theorem distributeSurplus_below (ops : BatOps α B) (law : BatLaw ops) (env : St
             exact ih _ _ hb hc h3
     exact key w.vehicles (w, []) (w', cmds') hinv hcm h
 
-theorem alGet_zero_of_all_zero (l : List (String × α)) (h : ∀ kv ∈ l, kv.2 = 0) (k : String) :
+theorem sdGet_zero_of_all_zero (l : List (String × α)) (h : ∀ kv ∈ l, kv.2 = 0) (k : String) :
     availOf l k = 0 := by
   unfold availOf
   induction l with
-  | nil => simp [alGet]
+  | nil => simp [sdGet]
   | cons x xs ih =>
     obtain ⟨xk, xv⟩ := x
     have hx : xv = 0 := h (xk, xv) (by simp)
     by_cases hk : (xk == k) = true
-    · simp [alGet, hk, hx]
+    · simp [sdGet, hk, hx]
     · have hk' : (xk == k) = false := by simpa using hk
-      simp only [alGet, hk', Bool.false_eq_true, if_false]
+      simp only [sdGet, hk', Bool.false_eq_true, if_false]
       exact ih (fun kv hkv => h kv (List.mem_cons_of_mem _ hkv))
 
-theorem availBatPower_nobat (ops : BatOps α B) (w : World α B) (hb : w.batteries = []) :
+theorem availBatPower_nobat (ops : BatOps α B) (w : SWorld α B) (hb : w.batteries = []) :
     availBatPower ops w = .ok (w.gcs.map (fun g => (g.id, (0 : α)))) := by
   unfold availBatPower
   rw [hb]
@@ -482,7 +482,7 @@ theorem availBatPower_nobat (ops : BatOps α B) (w : World α B) (hb : w.batteri
     simp only [List.mapM_cons, bind, Except.bind, pure, Except.pure, List.map_cons] at ih ⊢
     rw [ih]
 
-theorem updateBatteries_nobat (ops : BatOps α B) (env : StratEnv α) (w w' : World α B)
+theorem updateBatteries_nobat (ops : BatOps α B) (env : StratEnv α) (w w' : SWorld α B)
     (hb : w.batteries = []) (h : updateBatteries ops env w = .ok w') : w' = w := by
   unfold updateBatteries at h
   simp only [bind, Except.bind] at h
@@ -492,22 +492,22 @@ theorem updateBatteries_nobat (ops : BatOps α B) (env : StratEnv α) (w w' : Wo
     simp only [List.foldlM_nil, pure, Except.pure, Except.ok.injEq] at h
     exact h.symm
 
-@[simp] theorem resetStations_gcs (w : World α B) : (resetStations w).gcs = w.gcs := rfl
-@[simp] theorem resetStations_batteries (w : World α B) : (resetStations w).batteries = w.batteries := rfl
+@[simp] theorem resetStations_gcs (w : SWorld α B) : (resetStations w).gcs = w.gcs := rfl
+@[simp] theorem resetStations_batteries (w : SWorld α B) : (resetStations w).batteries = w.batteries := rfl
 
 end SpiceEv
 
 namespace SpiceEv
 variable {α B : Type} [Field α] [LinearOrder α] [IsStrictOrderedRing α]
 
-@[simp] theorem setVehicle_batteries (w : World α B) (v : VehicleS α B) :
+@[simp] theorem setVehicle_batteries (w : SWorld α B) (v : VehicleS α B) :
     (w.setVehicle v).batteries = w.batteries := rfl
-@[simp] theorem setStation_batteries (w : World α B) (s : StationS α) :
+@[simp] theorem setStation_batteries (w : SWorld α B) (s : StationS α) :
     (w.setStation s).batteries = w.batteries := rfl
-@[simp] theorem setGc_batteries (w : World α B) (g : GcS α) : (w.setGc g).batteries = w.batteries := rfl
+@[simp] theorem setGc_batteries (w : SWorld α B) (g : GcS α) : (w.setGc g).batteries = w.batteries := rfl
 
 theorem allocVehicle_batteries (rule : Rule) (ops : BatOps α B) (env : StratEnv α)
-    (st st' : World α B × List (String × α) × List (String × α)) (vid : String)
+    (st st' : SWorld α B × List (String × α) × List (String × α)) (vid : String)
     (h : allocVehicle rule ops env st vid = .ok st') : st'.1.batteries = st.1.batteries := by
   unfold allocVehicle at h
   split at h
@@ -530,7 +530,7 @@ theorem allocVehicle_batteries (rule : Rule) (ops : BatOps α B) (env : StratEnv
                 simp
 
 theorem allocFold_batteries (rule : Rule) (ops : BatOps α B) (env : StratEnv α) (ids : List String)
-    (st st' : World α B × List (String × α) × List (String × α))
+    (st st' : SWorld α B × List (String × α) × List (String × α))
     (h : ids.foldlM (allocVehicle rule ops env) st = .ok st') : st'.1.batteries = st.1.batteries := by
   induction ids generalizing st with
   | nil =>
@@ -544,7 +544,7 @@ theorem allocFold_batteries (rule : Rule) (ops : BatOps α B) (env : StratEnv α
       rw [ih st1 h, allocVehicle_batteries rule ops env st st1 id hs]
 
 theorem surplusVehicle_batteries (ops : BatOps α B) (env : StratEnv α) (cheap : List (String × Bool))
-    (w w' : World α B) (cmds cmds' : List (String × α)) (v : VehicleS α B)
+    (w w' : SWorld α B) (cmds cmds' : List (String × α)) (v : VehicleS α B)
     (h : surplusVehicle ops env cheap w cmds v = .ok (w', cmds')) : w'.batteries = w.batteries := by
   unfold surplusVehicle at h
   split at h
@@ -566,7 +566,7 @@ theorem surplusVehicle_batteries (ops : BatOps α B) (env : StratEnv α) (cheap 
             · simp only [Except.ok.injEq, Prod.mk.injEq] at h; obtain ⟨rfl, _⟩ := h; simp
           · simp only [Except.ok.injEq, Prod.mk.injEq] at h; obtain ⟨rfl, _⟩ := h; rfl
 
-theorem distributeSurplus_batteries (ops : BatOps α B) (env : StratEnv α) (w w' : World α B)
+theorem distributeSurplus_batteries (ops : BatOps α B) (env : StratEnv α) (w w' : SWorld α B)
     (cmds' : List (String × α)) (h : distributeSurplus ops env w = .ok (w', cmds')) :
     w'.batteries = w.batteries := by
   unfold distributeSurplus at h
@@ -574,8 +574,8 @@ theorem distributeSurplus_batteries (ops : BatOps α B) (env : StratEnv α) (w w
   split at h
   · cases h
   · rename_i cheap _
-    have key : ∀ (vs : List (VehicleS α B)) (st st' : World α B × List (String × α)),
-        vs.foldlM (fun (st : World α B × List (String × α)) v0 =>
+    have key : ∀ (vs : List (VehicleS α B)) (st st' : SWorld α B × List (String × α)),
+        vs.foldlM (fun (st : SWorld α B × List (String × α)) v0 =>
           match st.1.vehicle? v0.id with
           | none => Except.ok st
           | some v => surplusVehicle ops env cheap st.1 st.2 v) st = .ok st' →
@@ -608,26 +608,26 @@ variable {α B : Type} [Field α] [LinearOrder α] [IsStrictOrderedRing α]
 
 /-! ### stations -/
 
-def StationInv (w : World α B) : Prop := ∀ s ∈ w.stations, s.currentPower ≤ s.maxPower
+def StationInv (w : SWorld α B) : Prop := ∀ s ∈ w.stations, s.currentPower ≤ s.maxPower
 
-theorem station?_some (w : World α B) (id : String) (s : StationS α) (h : w.station? id = some s) :
+theorem station?_some (w : SWorld α B) (id : String) (s : StationS α) (h : w.station? id = some s) :
     s ∈ w.stations ∧ s.id = id := by
-  unfold World.station? at h
+  unfold SWorld.station? at h
   exact ⟨List.mem_of_find?_eq_some h, by simpa using List.find?_some h⟩
 
-theorem mem_setStation (w : World α B) (s' s : StationS α) (h : s ∈ (w.setStation s').stations) :
+theorem mem_setStation (w : SWorld α B) (s' s : StationS α) (h : s ∈ (w.setStation s').stations) :
     s = s' ∨ s ∈ w.stations := by
-  unfold World.setStation at h
+  unfold SWorld.setStation at h
   simp only [List.mem_map] at h
   obtain ⟨x, hx, rfl⟩ := h
   by_cases hid : (x.id == s'.id) = true
   · left; simp [hid]
   · right; simp [hid, hx]
 
-@[simp] theorem setVehicle_stations (w : World α B) (v : VehicleS α B) :
+@[simp] theorem setVehicle_stations (w : SWorld α B) (v : VehicleS α B) :
     (w.setVehicle v).stations = w.stations := rfl
-@[simp] theorem setGc_stations (w : World α B) (g : GcS α) : (w.setGc g).stations = w.stations := rfl
-@[simp] theorem setBattery_stations (w : World α B) (b : StatBatS α B) :
+@[simp] theorem setGc_stations (w : SWorld α B) (g : GcS α) : (w.setGc g).stations = w.stations := rfl
+@[simp] theorem setBattery_stations (w : SWorld α B) (b : StatBatS α B) :
     (w.setBattery b).stations = w.stations := rfl
 
 theorem clampPower_station (p cur mx mn vm : α) (h : cur ≤ mx) :
@@ -673,7 +673,7 @@ theorem planPower_station (rule : Rule) (ops : BatOps α B) (env : StratEnv α) 
       simpa using hcs
 
 theorem allocVehicle_station (rule : Rule) (ops : BatOps α B) (law : BatLaw ops) (env : StratEnv α)
-    (st st' : World α B × List (String × α) × List (String × α)) (vid : String)
+    (st st' : SWorld α B × List (String × α) × List (String × α)) (vid : String)
     (hinv : StationInv st.1)
     (h : allocVehicle rule ops env st vid = .ok st') : StationInv st'.1 := by
   unfold allocVehicle at h
@@ -715,7 +715,7 @@ theorem allocVehicle_station (rule : Rule) (ops : BatOps α B) (law : BatLaw ops
                   exact hinv s hs'
 
 theorem allocFold_station (rule : Rule) (ops : BatOps α B) (law : BatLaw ops) (env : StratEnv α)
-    (ids : List String) (st st' : World α B × List (String × α) × List (String × α))
+    (ids : List String) (st st' : SWorld α B × List (String × α) × List (String × α))
     (hinv : StationInv st.1)
     (h : ids.foldlM (allocVehicle rule ops env) st = .ok st') : StationInv st'.1 := by
   induction ids generalizing st with
@@ -735,7 +735,7 @@ namespace SpiceEv
 variable {α B : Type} [Field α] [LinearOrder α] [IsStrictOrderedRing α]
 
 theorem surplusVehicle_station (ops : BatOps α B) (law : BatLaw ops) (env : StratEnv α)
-    (cheap : List (String × Bool)) (w w' : World α B) (cmds cmds' : List (String × α))
+    (cheap : List (String × Bool)) (w w' : SWorld α B) (cmds cmds' : List (String × α))
     (v : VehicleS α B) (hinv : StationInv w)
     (h : surplusVehicle ops env cheap w cmds v = .ok (w', cmds')) : StationInv w' := by
   unfold surplusVehicle at h
@@ -788,16 +788,16 @@ theorem surplusVehicle_station (ops : BatOps α B) (law : BatLaw ops) (env : Str
           · simp only [Except.ok.injEq, Prod.mk.injEq] at h; obtain ⟨rfl, _⟩ := h; exact hinv
 
 theorem distributeSurplus_station (ops : BatOps α B) (law : BatLaw ops) (env : StratEnv α)
-    (w w' : World α B) (cmds' : List (String × α)) (hinv : StationInv w)
+    (w w' : SWorld α B) (cmds' : List (String × α)) (hinv : StationInv w)
     (h : distributeSurplus ops env w = .ok (w', cmds')) : StationInv w' := by
   unfold distributeSurplus at h
   simp only [bind, Except.bind] at h
   split at h
   · cases h
   · rename_i cheap _
-    have key : ∀ (vs : List (VehicleS α B)) (st st' : World α B × List (String × α)),
+    have key : ∀ (vs : List (VehicleS α B)) (st st' : SWorld α B × List (String × α)),
         StationInv st.1 →
-        vs.foldlM (fun (st : World α B × List (String × α)) v0 =>
+        vs.foldlM (fun (st : SWorld α B × List (String × α)) v0 =>
           match st.1.vehicle? v0.id with
           | none => Except.ok st
           | some v => surplusVehicle ops env cheap st.1 st.2 v) st = .ok st' →
@@ -822,14 +822,14 @@ theorem distributeSurplus_station (ops : BatOps α B) (law : BatLaw ops) (env : 
             exact ih _ _ (surplusVehicle_station ops law env cheap st.1 w1 st.2 c1 _ h1 hst1) h3
     exact key w.vehicles (w, []) (w', cmds') hinv h
 
-theorem updateBatteries_stations (ops : BatOps α B) (env : StratEnv α) (w w' : World α B)
+theorem updateBatteries_stations (ops : BatOps α B) (env : StratEnv α) (w w' : SWorld α B)
     (h : updateBatteries ops env w = .ok w') : w'.stations = w.stations := by
   unfold updateBatteries at h
   simp only [bind, Except.bind] at h
   split at h
   · cases h
   · rename_i cheap _
-    have key : ∀ (bs : List (StatBatS α B)) (w w' : World α B),
+    have key : ∀ (bs : List (StatBatS α B)) (w w' : SWorld α B),
         bs.foldlM (fun w b0 =>
           match w.batteries.find? (·.id == b0.id) with
           | none => Except.ok w
